@@ -52,4 +52,4 @@ void vp_c11_pick_ns(char *out, uint32_t idx) { ASSUME(idx < 5); QAD *d = qs_new(
 /* logging cut: the text of V2's "carbon copy from attacker" notice is not built (QStringBuilder<QStringBuilder<char16_t[53],QString>,char16_t[31]>::convertTo<QString>) */
 void _ZNK14QStringBuilderIS_IA53_Ds7QStringEA31_DsE9convertToIS1_EET_v(char *ret, char *self) { *(QAD**)ret = SHARED_NULL; }
 /* ---- DOM helper: keep only the first n children (children are appended at concrete indices, the count is symbolic) ---- */
-void vp_dom_truncate(char *el, uint32_t n) { struct dnode *d = DN(el); ASSUME(n <= d->nch); d->nch = n; }
+void vp_dom_truncate(char *el, uint32_t n) { struct dnode *d = DN(el); ASSUME(n <= d->nch); for (uint32_t i = d->nch; i < DOM_MAXCH; i++) d->ch[i] = 0; /* unused slots: definite null, so sibling walks end for symex too */ d->nch = n; }
